@@ -108,6 +108,19 @@ def coq_make(timeout=1500):
         return p.returncode == 0, (p.stdout + p.stderr)[-6000:]
 
 
+def coqchk(pid, timeout=3000):
+    """Independent re-check of the compiled property file and everything it depends on (thorough tier).
+    Returns (ok, summary)."""
+    with Lock("coq"):
+        p = subprocess.run(["timeout", str(timeout), "coqchk", "-silent", "-o", "-Q", COQ, "ASTS", "ASTS." + pid],
+                           capture_output=True, text=True, cwd=COQ)
+    out = p.stdout + p.stderr
+    summary = " ".join(out[out.find("CONTEXT SUMMARY"):].split())[:600] if "CONTEXT SUMMARY" in out else out[-600:]
+    ok = p.returncode == 0 and "* Axioms: <none>" in out and "type-in-type: <none>" in out and "unsafe (co)fixpoints: <none>" in out \
+        and "positivity is assumed: <none>" in out
+    return ok, summary
+
+
 FORBIDDEN = re.compile(r"\b(Admitted|admit|Axiom|Parameter|Conjecture|Hypothesis|Variable|Unset Guard|bypass_check|"
                        r"type-in-type|impredicative-set|Admit Obligations)\b")
 
@@ -243,6 +256,11 @@ def coq_mismatches(tag, imports, ctype, check_fn, terms, shard_size=400, timeout
             raise BuildError("cannot parse coqc output for %s: %s" % (fn, txt[:500]))
         body = m.group(1).strip()
         idx = [int(x.replace("%nat", "")) for x in body.split(";") if x.strip()] if body else []
+        if not idx:
+            try:
+                os.remove(fn)            # keep only the case files that hold a disagreement
+            except OSError:
+                pass
         return [off + i for i in idx]
 
     with ThreadPoolExecutor(max_workers=16) as ex:
